@@ -101,6 +101,24 @@ def err_kind(e):
 # ----------------------------------------------------------------------------- the real SDK
 
 
+def _registers_of(cmds):
+    """names of all registers occurring in a list of proto commands / assembled instructions"""
+    out = set()
+
+    def walk(x, depth=0):
+        if isinstance(x, Register):
+            out.add(str(x))
+        elif isinstance(x, (list, tuple)):
+            for y in x:
+                walk(y, depth)
+        elif depth < 3 and hasattr(x, "__dict__") and not isinstance(x, (int, str)):
+            for v in vars(x).values():
+                walk(v, depth + 1)
+    for c in cmds:
+        walk(getattr(c, "operands", []))
+    return out
+
+
 class RealRun:
     """Interpret a host program through the real SDK API.
 
@@ -128,6 +146,7 @@ class RealRun:
         self.futs = {}  # (a, i) -> Future object used by the program (kept: caching is observable)
         self.subs, self.snaps, self.reads = [], [], []
         self.reserved = {}  # flush number -> registers reserved for the assembler (executed runs only)
+        self.scratch, self.live = {}, {}  # flush number -> assembler scratch registers / live (active) registers
         self.err = None
         self.exec_err = None
         self.first_exc = None
@@ -303,9 +322,14 @@ class RealRun:
 
             def recording(pre, *a, **kw):  # what the builder reserves for the assembler at THIS flush
                 rr = kw.get("reserved_registers")
-                self.reserved[len(self.subs) - 1] = None if rr is None else sorted(
-                    [r.name.name, r.index] for r in rr)
-                return orig(pre, *a, **kw)
+                k = len(self.subs) - 1
+                self.reserved[k] = None if rr is None else sorted([r.name.name, r.index] for r in rr)
+                before = _registers_of(pre.commands)
+                sub = orig(pre, *a, **kw)
+                # registers the assembler introduced (scratch for constants) / registers live right now
+                self.scratch[k] = sorted(_registers_of(sub.instructions) - before)
+                self.live[k] = sorted("R%d" % r.index for r in self.mm._active_registers)
+                return sub
             _B.assemble_subroutine = recording
             try:
                 self.conn.commit_protosubroutine(proto)
@@ -350,6 +374,19 @@ class RealRun:
         for h, (kind, obj) in enumerate(self.regs):
             if kind == "rf" and obj.reg is not None:
                 out["reg"][h] = RegFuture(self.conn, obj.reg).value
+        # every entry of every array, through handles asked from the Array AGAIN (what an application does
+        # that calls `arr.get_future_index(i)` / `arr.get_future_slice(..)` after each flush)
+        out["api"], out["slice"] = {}, {}
+        for a, arr in enumerate(self.arrays):
+            n = len(arr)
+            try:
+                out["api"][a] = [arr.get_future_index(i).value for i in range(n)]
+            except Exception as e:
+                out["api"][a] = "unreadable:" + type(e).__name__
+            try:
+                out["slice"][a] = [f.value for f in arr.get_future_slice(slice(0, n))]
+            except Exception as e:
+                out["slice"][a] = "unreadable:" + type(e).__name__
         return out
 
     def controller_state(self):
@@ -1105,6 +1142,36 @@ def completed_op(rng, depth=3, h0=None, epr_hw=None):
     return op(rng.randrange(depth + 1), frozenset())
 
 
+def degenerate_op(rng, h0=None):
+    """A completed operation whose body contributes nothing: empty-body foreach / enumerate / loop / loop_body /
+    if / loop_until / try, a loop over an empty range, and nestings of these (C14: such a block must give its
+    register back like any other)."""
+    def fut():
+        return {"a": rng.randrange(3), "i": rng.randrange(2)}
+
+    def empty(d):
+        k = rng.choice(["foreach", "foreach", "enumerate", "loop", "lbody", "if", "if1", "until", "try", "zero"])
+        body = [] if d == 0 or rng.random() < 0.5 else [empty(d - 1) for _ in range(rng.choice([1, 2]))]
+        if k in ("foreach", "enumerate"):
+            return {"k": "foreach", "arr": rng.randrange(3), "idx": k == "enumerate", "body": body}
+        if k in ("loop", "lbody"):
+            return {"k": k, "s": 0, "e": rng.choice([1, 2, 3]), "d": 1, "body": body}
+        if k == "zero":  # a real body, but the range is empty
+            b = body or [{"k": "addf", "f": fut(), "o": {"v": 1}, "m": None}]
+            return {"k": rng.choice(["loop", "lbody"]), "s": 2, "e": 2, "d": 1, "body": b}
+        if k == "if":
+            return {"k": "if", "cb": True, "c": rng.choice(["eq", "ne", "lt", "ge"]), "a": {"v": rng.randrange(3)},
+                    "b": {"f": fut()}, "body": body}
+        if k == "if1":
+            return {"k": "if", "cb": rng.random() < 0.5, "c": rng.choice(["ez", "nz"]), "a": {"f": fut()},
+                    "b": {"v": 0}, "body": body}
+        if k == "until":
+            return {"k": "until", "n": 2, "body": body, "ef": {"f": fut()}, "ev": 0, "cl": []}
+        return {"k": "try", "n": 1, "body": body}
+
+    return empty(rng.choice([0, 0, 1, 2]))
+
+
 def count_binders(x):
     """register handles bound by building a statement (loop-like operations bind one each)"""
     if isinstance(x, list):
@@ -1120,7 +1187,7 @@ def count_binders(x):
     return n
 
 
-def long_sequence(rng, n_ops, flush_every, depth=3, epr_hw=None, reg_meas_p=0.15):
+def long_sequence(rng, n_ops, flush_every, depth=3, epr_hw=None, reg_meas_p=0.15, degenerate=0.0):
     """completed operations of every kind, a flush after every `flush_every`-th; interleaved with
     register-outcome measurements (`measure(store_array=False)`, at most 15 between two flushes: their
     M registers are held until the flush)"""
@@ -1135,11 +1202,75 @@ def long_sequence(rng, n_ops, flush_every, depth=3, epr_hw=None, reg_meas_p=0.15
             in_seg += 1
         if (i + 1) % flush_every == 0:
             in_seg = 0
-        p.append(completed_op(rng, depth, h0=h, epr_hw=epr_hw))
+        if degenerate and rng.random() < degenerate:
+            p.append(degenerate_op(rng, h0=h))
+        else:
+            p.append(completed_op(rng, depth, h0=h, epr_hw=epr_hw))
         h += count_binders(p[-1])
         if (i + 1) % flush_every == 0:
             p.append({"k": "flush"})
     if p[-1]["k"] != "flush":
+        p.append({"k": "flush"})
+    return p
+
+
+def live_across_flushes(rng):
+    """A history in which registers stay live ACROSS flushes: `new_register()` handles (and register
+    outcomes) created in one subroutine, later subroutines full of constants that do not mention them
+    (array initialisation, adds of literals, loops with literal bounds, ifs on literals), and uses of the
+    registers afterwards.  The assembler must not pick a live register as scratch for those constants."""
+    p = [{"k": "arr", "len": 2, "init": [0, 1]}, {"k": "arr", "len": 2, "init": [1, 1]},
+         {"k": "arr", "len": 2, "init": [2, 0]}]
+    regs = []  # handles of new_register() registers
+    h = 0
+    na = 3
+
+    def consts():
+        nonlocal na, h
+        k = rng.choice(["arr", "arr", "addf", "addf", "loop", "if", "qopf", "foreach"])
+        if k == "arr":
+            na += 1
+            n = rng.choice([1, 2, 3])
+            return {"k": "arr", "len": n, "init": [rng.randrange(1, 9) for _ in range(n)]}
+        f = {"a": rng.randrange(3), "i": rng.randrange(2)}
+        add = {"k": "addf", "f": f, "o": {"v": rng.randrange(1, 9)}, "m": rng.choice([None, 7])}
+        if k == "addf":
+            return add
+        if k == "qopf":
+            return {"k": "qop", "g": [rng.randrange(7)], "t": {"k": "fut", "f": f}}
+        h += 1 if k in ("loop", "foreach") else 0
+        if k == "loop":
+            return {"k": rng.choice(["loop", "lbody"]), "s": 0, "e": rng.choice([1, 2, 3]), "d": 1, "body": [add]}
+        if k == "foreach":
+            return {"k": "foreach", "arr": rng.randrange(3), "idx": rng.random() < 0.5, "body": [add]}
+        return {"k": "if", "cb": True, "c": rng.choice(["lt", "ge", "ne"]), "a": {"v": rng.randrange(3)},
+                "b": {"f": f}, "body": [add]}
+
+    def use():
+        hh = rng.choice(regs)
+        k = rng.choice(["addr", "addr", "if", "if1"])
+        if k == "addr":
+            return {"k": "addr", "h": hh, "o": {"v": rng.randrange(1, 5)}, "m": rng.choice([None, 11])}
+        body = [{"k": "addf", "f": {"a": rng.randrange(3), "i": rng.randrange(2)}, "o": {"v": 1}, "m": None}]
+        if k == "if":
+            return {"k": "if", "cb": rng.random() < 0.5, "c": rng.choice(["eq", "ne", "lt", "ge"]), "a": {"h": hh},
+                    "b": {"v": rng.randrange(10)}, "body": body}
+        return {"k": "if", "cb": rng.random() < 0.5, "c": rng.choice(["ez", "nz"]), "a": {"h": hh}, "b": {"v": 0},
+                "body": body}
+
+    for seg in range(rng.choice([3, 4, 5])):
+        if seg == 0 or (len(regs) < 3 and rng.random() < 0.4):
+            for _ in range(rng.choice([1, 1, 2])):
+                p.append({"k": "reg", "v": rng.randrange(3, 40)})
+                regs.append(h)
+                h += 1
+        if seg > 0:
+            mode = rng.choice(["consts", "consts", "mixed"])
+            for _ in range(rng.choice([1, 2, 3])):
+                p.append(consts())
+            if mode == "mixed" or seg >= 2:
+                for _ in range(rng.choice([1, 2])):
+                    p.append(use())
         p.append({"k": "flush"})
     return p
 
@@ -1201,6 +1332,12 @@ def oracle(prog, outcomes, keep=None, interfere=False):
         return "fail", [{"what": "real SDK/controller raised on a valid program", "err": r.err,
                          "exec_err": r.exec_err, "exc": repr(r.first_exc), "feature": "raise"}]
     fails = []
+    for k in sorted(r.scratch):
+        both = sorted(set(r.scratch[k]) & set(r.live.get(k, [])))
+        if both:
+            fails.append({"what": "the assembler used live register(s) %s as scratch in the subroutine of flush %d"
+                                  % (",".join(both), k), "scratch": r.scratch[k], "live": r.live[k],
+                          "reserved": r.reserved.get(k), "feature": "scratch-live", "flush": k})
     if r.trace() != d.trace:
         rt, dt = r.trace(), d.trace
         i = next((k for k, (x, y) in enumerate(zip(rt, dt)) if x != y), min(len(rt), len(dt)))
@@ -1231,6 +1368,13 @@ def oracle(prog, outcomes, keep=None, interfere=False):
                 fails.append({"what": "Future handle @%d[%d] read on the host after flush %d" % (a, i, k),
                               "real": hv, "direct": dv["arr"][a][i], "fresh": rv["fresh"]["fut"].get(key),
                               "feature": "future-handle", "flush": k})
+        for a, vals in dv["arr"].items():
+            for how, call in (("api", "get_future_index(i)"), ("slice", "get_future_slice(0:n)")):
+                got = rv["fresh"].get(how, {}).get(a)
+                if got is not None and got != vals:
+                    fails.append({"what": "entries of array @%d read through fresh %s handles after flush %d"
+                                          % (a, call, k), "real": got, "direct": vals,
+                                  "feature": "fresh-api-handle", "flush": k})
         for h, v in dv["reg"].items():
             if rv["host"]["reg"].get(h) != v:
                 fails.append({"what": "RegFuture handle %d read on the host after flush %d" % (h, k),
